@@ -243,6 +243,11 @@ async def _run_script(ctx, inv, ev, script):
         elif op == 'obs_all':
             for lab, e in list(ctx.events.items()):
                 ctx.obs(st[1], ev=e)
+        elif op == 'poll_if':
+            # like poll, but silently skipped if the event does not exist (yet)
+            await inv.sleep(_val(ctx, st[1]))
+            if st[2] in ctx.events:
+                ctx.obs('poll', ev=ctx.events[st[2]])
         elif op == 'poll':
             # poller: observe an event at a (symbolic) instant
             await inv.sleep(_val(ctx, st[1]))
